@@ -226,14 +226,25 @@ Qed.
 Lemma dsl_binop_total : forall st op a b, exists p st', dsl_binop_eval st op a b = (p, st').
 Proof. intros. destruct (dsl_binop_eval st op a b) as [p st']. eauto. Qed.
 
-(* the only way operator - produces the null dereference (F-C15-b) *)
-Lemma dsl_sub_crash_shape : forall st l x xs,
-  dsl_arr st l = x :: xs -> dsl_binop_eval st DbSub (DvArr l) DvEmpty = (PrAbort DaCrashNull, st).
-Proof. intros. simpl. rewrite H. reflexivity. Qed.
+(* the operators fixed in /repo (9eeddcb, 150ea79): array - null is a shallow clone; % re-checks the truncated divisor *)
+Lemma dsl_sub_null_clone : forall st l,
+  dsl_binop_eval st DbSub (DvArr l) DvEmpty = (PrVal (DvArr (List.length st)), (st ++ [DoArr (dsl_arr st l)])%list).
+Proof. intros. reflexivity. Qed.
 
-Lemma dsl_sub_empty_array_null_ok : forall st l,
-  dsl_arr st l = [] -> fst (dsl_binop_eval st DbSub (DvArr l) DvEmpty) = PrVal (DvArr (List.length st)).
-Proof. intros. simpl. rewrite H. reflexivity. Qed.
+Lemma dsl_mod_fraction_err : forall st x, dsl_binop_eval st DbMod (DvNum x 0) (DvNum 1 1) = (PrErr DkRange, st) \/
+                                          exists a, dsl_binop_eval st DbMod (DvNum x 0) (DvNum 1 1) = (PrAbort a, st).
+Proof.
+  intros. unfold dsl_binop_eval. cbn [dsl_is_empty dsl_is_num dsl_is_zero Z.eqb].
+  unfold dsl_int2, dsl_to_int, dsl_to_double. cbn [dsl_trunc dsl_p2 Nat.max].
+  destruct (dsl_int32_ok (dsl_trunc x 0)); [left; reflexivity|right; eexists; reflexivity].
+Qed.
+
+Definition dsl_fixed_ops_stmt : Prop :=
+  (forall st l, dsl_binop_eval st DbSub (DvArr l) DvEmpty = (PrVal (DvArr (List.length st)), (st ++ [DoArr (dsl_arr st l)])%list)) /\
+  (forall st x, dsl_binop_eval st DbMod (DvNum x 0) (DvNum 1 1) = (PrErr DkRange, st) \/
+                exists a, dsl_binop_eval st DbMod (DvNum x 0) (DvNum 1 1) = (PrAbort a, st)).
+Lemma dsl_fixed_ops : dsl_fixed_ops_stmt.
+Proof. split. - exact dsl_sub_null_clone. - exact dsl_mod_fraction_err. Qed.
 
 Definition dsl_total_errors_stmt : Prop :=
   (forall st op a b, exists p st', dsl_binop_eval st op a b = (p, st')) /\
@@ -323,20 +334,22 @@ Definition dsl_prog_cyclic_tostring : dsl_expr :=
 Definition dsl_prog_minus_null : dsl_expr := DeDict true [DeBin DbSub (DeArray [dsl_n 1]) (DeLit DvEmpty)].
 (* 5 % 0.5 *)
 Definition dsl_prog_mod_fraction : dsl_expr := DeDict true [DeBin DbMod (dsl_n 5) (DeLit (DvNum 1 1))].
-(* var a = [1]; a.map(function(x) use(a) { a.add(x) }) *)
+(* var a = [1]; a.map(function(x) use(a) { if (a.len() < 3) { a.add(x) } }) *)
 Definition dsl_prog_iter : dsl_expr :=
   DeDict true [dsl_var "a" (DeArray [dsl_n 1]);
-               dsl_method (DeVar "a") "map" [DeFunc ["x"] [("a", DeVar "a")] (DeDict true [dsl_method (DeVar "a") "add" [DeVar "x"]])]].
+               dsl_method (DeVar "a") "map" [DeFunc ["x"] [("a", DeVar "a")]
+                 (DeDict true [DeCond (DeBin DbLt (dsl_method (DeVar "a") "len" []) (dsl_n 3))
+                                      (DeDict true [dsl_method (DeVar "a") "add" [DeVar "x"]]) None])]].
 
 Lemma dsl_cyclic_refuted :
   fst (dsl_run 400 dsl_prog_cyclic) = DrAbort DaCycle /\ fst (dsl_run 400 dsl_prog_cyclic_tostring) = DrAbort DaCycle.
 Proof. split; vm_compute; reflexivity. Qed.
-Lemma dsl_minus_null_refuted : fst (dsl_run 400 dsl_prog_minus_null) = DrAbort DaCrashNull.
-Proof. vm_compute. reflexivity. Qed.
-Lemma dsl_mod_fraction_refuted : fst (dsl_run 400 dsl_prog_mod_fraction) = DrAbort DaCrashFpe.
-Proof. vm_compute. reflexivity. Qed.
-Lemma dsl_iter_refuted : fst (dsl_run 400 dsl_prog_iter) = DrAbort DaCrashIter.
-Proof. vm_compute. reflexivity. Qed.
+(* after the fixes these witnesses are ordinary programs: value, script error, value *)
+Lemma dsl_fixed_witnesses :
+  dsl_observe (dsl_run 400 dsl_prog_minus_null) = ["[1]"; "{}"; "{}"; "{}"] /\
+  fst (dsl_run 400 dsl_prog_mod_fraction) = DrErr DkRange /\
+  dsl_observe (dsl_run 400 dsl_prog_iter) = ["[null,null,null]"; "{}"; "{""a"":[1,1,1]}"; "{}"].
+Proof. vm_compute. repeat split; reflexivity. Qed.
 
 (* ------------------------------------------------------------------ the oracle accepts every model trace *)
 Lemma dsl_lines_eqb_refl : forall l, dsl_lines_eqb l l = true.
